@@ -1,6 +1,6 @@
 SPECIFICATION Spec
 CONSTANTS
-  Mode = "matrix"
+  Mode = "hostile"
   ProtoSets <- QProtoSets
   CodecSeqs <- QCodecSeqs
   CompSeqs <- QCompSeqs
@@ -8,7 +8,7 @@ CONSTANTS
   ClientCodecs <- QCodecs
   ClientComps <- QComps
   Methods <- QMethods
-  MaxMsgs = 2
+  MaxMsgs = 1
   EndCodes <- OkOnly
   HttpStatuses <- NoStatuses
   FlagValues <- QFlags
